@@ -175,7 +175,7 @@ libc = "0.2.149"
 page_size = "0.6.0"
 {fnv}
 sha3 = {{ path = "{env}/sha3" }}
-jv_env = {{ path = "{env}/jv_env" }}
+jv_env = {{ path = "{env}/jv_env"{jvfeat} }}
 memmap2 = {{ path = "{env}/memmap2" }}
 fs4 = {{ path = "{env}/fs4" }}
 bytes = {{ path = "{env}/bytes" }}
@@ -239,10 +239,10 @@ def generate(out, harness_dir=None, repo=REPO, quiet=False, profile="model"):
     fnv = 'fnv = "1.0.7"' if profile == "real" else 'fnv = { path = "%s/fnv" }' % env
     if profile == "native":
         fnv += '\nkani = { path = "%s/kani_native" }' % env
-    open(os.path.join(out, "Cargo.toml"), "w").write(CARGO_TOML.format(env=env, fnv=fnv, feat=('"jv_real"' if profile == "real" else "")))
+    open(os.path.join(out, "Cargo.toml"), "w").write(CARGO_TOML.format(env=env, fnv=fnv, feat=('"jv_real"' if profile == "real" else ""), jvfeat=(', features = ["set32"]' if profile == "set32" else "")))
     report["profile"] = profile
     lock = os.path.join(VERIF, "lib", "Cargo.lock.%s" % profile)
-    if profile == "native":
+    if profile in ("native", "set32"):
         lock = os.path.join(VERIF, "lib", "Cargo.lock.none")
     if os.path.exists(lock):
         shutil.copy(lock, os.path.join(out, "Cargo.lock"))
